@@ -53,13 +53,15 @@ result). None of them is committed in `/repo`; to run a check against one:
 `git -C /repo apply /verif/seeded/<id>/patch.diff; ./check <Cxx> quick; git -C /repo checkout -- .`
 (or, without touching `/repo`, `PYVC_REPO_SRC=<worktree>/src ./check <Cxx> quick`).
 `m1`/`m2` are the first round (one agent per property, all 20 properties), `m3`/`m4` a
-second round and `m5`/`m6` a third round (again two per property, all 20 properties) on
-the tree with the `fix:` commits of the time.
+second round and `m5`/`m6` a third round (again two per property, all 20 properties),
+`m7`/`m8` a fourth round for C01, C03, C04, C08, C10, C12, C13 and C17, each on the tree
+with the `fix:` commits of the time.
 The raw logs of the confirmation runs are in `seeded/logs/`.
 
 {det} of {n} confirmed changes are reported by the quick tier of the check of their own
 property - *after* the strengthening described below the table. At first sight the checks
-reported 32 of 39 (first round), 31 of 40 (second) and 28 of 40 (third); every miss was in
+reported 32 of 39 (first round), 31 of 40 (second), 28 of 40 (third) and 14 of 15
+(fourth: eight properties, sixteen changes, one of which could not be confirmed); every miss was in
 a bounded part (a stand-in that lacked the triggering input or sequence), in code outside
 the functions and argument kinds under contract (`Term` general path, `utils.sum`,
 `QuantityMeta.__new__`, string spellings), behind an abstraction of the model (dictionary
